@@ -192,7 +192,17 @@ def rule_hygiene(ck, repo, R, pid, extra_modules=()):
                 if not (isinstance(n, ast.Subscript) and isinstance(n.value, ast.Name)):
                     continue
                 seq = n.value.id
-                for c in ast.walk(n.slice):
+
+                def arith(e):
+                    """nodes of the index arithmetic itself: not what sits inside another subscript or call (`d[path[len(path) // 2]]` indexes d with a VALUE)"""
+                    yield e
+                    if isinstance(e, ast.Subscript) or (isinstance(e, ast.Call) and not (isinstance(e.func, ast.Name) and e.func.id == 'len')):
+                        return
+                    if isinstance(e, ast.Call):
+                        return
+                    for ch in ast.iter_child_nodes(e):
+                        yield from arith(ch)
+                for c in arith(n.slice):
                     if isinstance(c, ast.Call) and isinstance(c.func, ast.Name) and c.func.id == 'len' and len(c.args) == 1 and isinstance(c.args[0], ast.Name):
                         n_aff += 1
                         if c.args[0].id != seq:
